@@ -393,7 +393,7 @@ def schedule_cases(r, thorough, prop_corpus):
     for _ in range(6000 if thorough else 450):
         cases.append(gen_f7_like(r) if r.random() < 0.15 else gen_case(r))
     if thorough:
-        cases += exhaustive_cases(3)
+        cases += exhaustive_cases(4)
     return cases
 
 
